@@ -295,16 +295,26 @@ inductive ListResp
   | ok (routes : List (RibQuery.Prefix × Nat))
   deriving DecidableEq, Repr
 
+/-- `contract = false`: the prefixes the store's per-ingress iterator yields are taken as observed
+(`iter_records_for_mui_*` is the more-specifics iterator of rotonda-store started at the root,
+the one behind C11's more-specifics findings). `true`: every stored prefix is iterated. -/
+structure ListVariant where
+  contract : Bool
+  deriving DecidableEq, Repr
+
 /-- `GET <api path><text>` with a path of exactly three `/`-separated pieces: `text` must be a
 `u32` (`IngressId`); a virtual RIB refuses; a physical one lists the *unicast* store's records of
 that ingress id that are not withdrawn (`include_withdrawals = false`). -/
-def handleListing (physical : Bool) (rib : RibQuery.Rib) (text : Str) : ListResp :=
+def handleListing (lv : ListVariant) (physical : Bool) (rib : RibQuery.Rib) (text : Str)
+    (obs : List RibQuery.Prefix) : ListResp :=
   match RibQuery.parseUnsigned (2 ^ 32) text with
   | none => .badRequest
   | some id =>
     if !physical then .badRequest
-    else .ok ((rib.unicast.items.filter fun r => r.mui == id && r.status == .active).map
-      fun r => (r.pfx, r.attrs.id))
+    else
+      let mine := rib.unicast.items.filter fun r => r.mui == id && r.status == .active
+      .ok ((if lv.contract then mine else obs.flatMap fun p => mine.filter fun r => r.pfx == p).map
+        fun r => (r.pfx, r.attrs.id))
 
 /-! ## Part A: a pipeline with virtual RIBs -/
 
